@@ -59,7 +59,7 @@ def gen(rng, tier, shard, nshards):
             if rng.random() < 0.08:
                 # un-normalised domain that starts at a small decimal (not reproduced by an 18-decimal round trip)
                 a_ = rng.choice([0.1 ** 3, rng.uniform(0.0005, 0.004), -rng.uniform(0.0005, 0.004), 0.1 ** 3])
-                kw.update(normalize=False, lohi=(a_, a_ + rng.choice([1.0, 2.5, 5.0])), clamped_only=True)
+                kw.update(normalize=False, lohi=(a_, a_ + rng.choice([1.0, 2.5, 5.0, 2.0 ** -25, 2.0 ** -24])), clamped_only=True)
                 kw.pop('kvcls', None)
         kw.setdefault('span', rng.choice(['linear', 'binary', None]))
         pd = kw.pop('pdim')
